@@ -7,7 +7,7 @@ import PegtlVerif.Lemmas.Hooks
 namespace Pegtl
 
 def isStart (i : Nat) : Ev → Bool
-  | .start j _ => i == j
+  | .start j _ _ => i == j
   | _ => false
 
 def isClose (i : Nat) : Ev → Bool
@@ -22,18 +22,84 @@ def cntClose (i : Nat) (l : List Ev) : Nat := (l.filter (isClose i)).length
 /-- Frames of rule `i` whose `start` is not yet closed. -/
 def openFrames (i : Nat) : List Frame → Nat
   | [] => 0
-  | (j, .started) :: s => (if i = j then 1 else 0) + openFrames i s
-  | (j, .acted) :: s => (if i = j then 1 else 0) + openFrames i s
+  | (j, .started _) :: s => (if i = j then 1 else 0) + openFrames i s
+  | (j, .acted _) :: s => (if i = j then 1 else 0) + openFrames i s
   | _ :: s => openFrames i s
 
-theorem hookStep_count (i : Nat) (s s' : List Frame) (e : Ev) (h : hookStep true s e = some s') :
+def HStat.u : HStat → Bool
+  | .fresh => true | .started u => u | .acted u => u | .closed u _ => u
+
+/-- Every open invocation's hooks are run by a control that defines `unwind()`. -/
+def AllU : List Frame → Prop
+  | [] => True
+  | (_, st) :: s => st.u = true ∧ AllU s
+
+theorem hookStep_allU {uOf : Nat → Bool} {mf : Nat → Bool} (hu : ∀ k, uOf k = true) (s s' : List Frame) (e : Ev) (h : hookStep uOf mf s e = some s')
+    (ha : AllU s) : AllU s' := by
+  cases e with
+  | enter j a m c kc => simp only [hookStep, Option.some.injEq] at h; subst h; exact ⟨rfl, ha⟩
+  | raise j c => simp only [hookStep, Option.some.injEq] at h; subst h; exact ha
+  | sctor d => simp only [hookStep, Option.some.injEq] at h; subst h; exact ha
+  | ssucc d c o => simp only [hookStep, Option.some.injEq] at h; subst h; exact ha
+  | sdtor d => simp only [hookStep, Option.some.injEq] at h; subst h; exact ha
+  | ruleApply k sd b e => simp only [hookStep, Option.some.injEq] at h; subst h; exact ha
+  | exit j r c =>
+    cases s with
+    | nil => simp [hookStep] at h
+    | cons f s0 =>
+      obtain ⟨k, st⟩ := f
+      simp only [hookStep] at h
+      split at h
+      · simp only [Option.some.injEq] at h; subst h; exact ha.2
+      · simp at h
+  | start j c kc =>
+    cases s with
+    | nil => simp [hookStep] at h
+    | cons f s0 =>
+      obtain ⟨k, st⟩ := f
+      cases st <;> simp [hookStep] at h
+      obtain ⟨rfl, rfl⟩ := h
+      exact ⟨hu kc, ha.2⟩
+  | success j c =>
+    cases s with
+    | nil => simp [hookStep] at h
+    | cons f s0 =>
+      obtain ⟨k, st⟩ := f
+      cases st <;> simp [hookStep] at h <;> (obtain ⟨rfl, rfl⟩ := h; exact ⟨ha.1, ha.2⟩)
+  | failure j c =>
+    cases s with
+    | nil => simp [hookStep] at h
+    | cons f s0 =>
+      obtain ⟨k, st⟩ := f
+      cases st <;> simp [hookStep] at h <;> (obtain ⟨rfl, rfl⟩ := h; exact ⟨ha.1, ha.2⟩)
+  | unwind j c =>
+    cases s with
+    | nil => simp [hookStep] at h
+    | cons f s0 =>
+      obtain ⟨k, st⟩ := f
+      cases st <;> simp [hookStep] at h <;> (obtain ⟨rfl, rfl⟩ := h; exact ⟨ha.1, ha.2⟩)
+  | apply j sd b c =>
+    cases s with
+    | nil => simp [hookStep] at h
+    | cons f s0 =>
+      obtain ⟨k, st⟩ := f
+      cases st <;> simp [hookStep] at h <;> (obtain ⟨rfl, rfl⟩ := h; exact ⟨ha.1, ha.2⟩)
+  | apply0 j sd c =>
+    cases s with
+    | nil => simp [hookStep] at h
+    | cons f s0 =>
+      obtain ⟨k, st⟩ := f
+      cases st <;> simp [hookStep] at h <;> (obtain ⟨rfl, rfl⟩ := h; exact ⟨ha.1, ha.2⟩)
+
+theorem hookStep_count {uOf : Nat → Bool} {mf : Nat → Bool} (i : Nat) (s s' : List Frame) (e : Ev) (h : hookStep uOf mf s e = some s') (ha : AllU s) :
     (if isStart i e then 1 else 0) + openFrames i s = (if isClose i e then 1 else 0) + openFrames i s' := by
   cases e with
-  | enter j a m c => simp only [hookStep, Option.some.injEq] at h; subst h; simp [isStart, isClose, openFrames]
+  | enter j a m c kc => simp only [hookStep, Option.some.injEq] at h; subst h; simp [isStart, isClose, openFrames]
   | raise j c => simp only [hookStep, Option.some.injEq] at h; subst h; simp [isStart, isClose]
   | sctor d => simp only [hookStep, Option.some.injEq] at h; subst h; simp [isStart, isClose]
   | ssucc d c o => simp only [hookStep, Option.some.injEq] at h; subst h; simp [isStart, isClose]
   | sdtor d => simp only [hookStep, Option.some.injEq] at h; subst h; simp [isStart, isClose]
+  | ruleApply k sd b e => simp only [hookStep, Option.some.injEq] at h; subst h; simp [isStart, isClose]
   | exit j r c =>
     cases s with
     | nil => simp [hookStep] at h
@@ -43,9 +109,10 @@ theorem hookStep_count (i : Nat) (s s' : List Frame) (e : Ev) (h : hookStep true
       split at h
       · rename_i hc
         simp only [Option.some.injEq] at h; subst h
-        cases st <;> simp_all [exitOk, isStart, isClose, openFrames]
+        have hau := ha.1
+        cases st <;> simp_all [exitOkM, exitOk, isStart, isClose, openFrames, HStat.u]
       · simp at h
-  | start j c =>
+  | start j c kc =>
     cases s with
     | nil => simp [hookStep] at h
     | cons f s0 =>
@@ -100,18 +167,18 @@ theorem hookStep_count (i : Nat) (s s' : List Frame) (e : Ev) (h : hookStep true
          simp only [isStart, isClose, openFrames]
          (try split) <;> simp_all <;> omega)
 
-theorem runHooks_count (i : Nat) : ∀ (l : List Ev) (s s' : List Frame), runHooks true s l = some s' →
-    cntStart i l + openFrames i s = cntClose i l + openFrames i s' := by
+theorem runHooks_count {uOf : Nat → Bool} {mf : Nat → Bool} (hu : ∀ k, uOf k = true) (i : Nat) : ∀ (l : List Ev) (s s' : List Frame), runHooks uOf mf s l = some s' →
+    AllU s → cntStart i l + openFrames i s = cntClose i l + openFrames i s' := by
   intro l
   induction l with
-  | nil => intro s s' h; simp only [runHooks, Option.some.injEq] at h; subst h; simp [cntStart, cntClose]
+  | nil => intro s s' h _; simp only [runHooks, Option.some.injEq] at h; subst h; simp [cntStart, cntClose]
   | cons e es ih =>
-    intro s s' h
+    intro s s' h ha
     simp only [runHooks] at h
     split at h
     · rename_i s1 h1
-      have c1 := hookStep_count i s s1 e h1
-      have c2 := ih s1 s' h
+      have c1 := hookStep_count i s s1 e h1 ha
+      have c2 := ih s1 s' h (hookStep_allU hu s s1 e h1 ha)
       have hs : cntStart i (e :: es) = (if isStart i e then 1 else 0) + cntStart i es := by
         simp only [cntStart, List.filter_cons]; split <;> simp <;> omega
       have hc : cntClose i (e :: es) = (if isClose i e then 1 else 0) + cntClose i es := by
